@@ -265,8 +265,9 @@ pub fn isa_str(op: &Op) -> &'static str {
 }
 
 fn name_string(b: &[u8]) -> String {
-    // any 7-bit characters, including NUL and control characters (a String the caller may pass)
-    b.iter().map(|x| (x & 0x7f) as char).collect()
+    // any String the caller may pass: 7-bit characters including NUL and control characters, and
+    // (bytes >= 0xf0) non-ASCII characters that take two bytes in UTF-8
+    b.iter().map(|x| if *x >= 0xf0 { char::from(*x) } else { (x & 0x7f) as char }).collect()
 }
 
 fn rimt_maps(ops: &[Op], h: &Handles, base_off: u32, refs: &mut Vec<RefF>) -> Option<Vec<rimt::IdMapping>> {
@@ -561,7 +562,8 @@ fn build_inner(op: &Op, h: &Handles) -> Option<BuiltEntry> {
         }
         K::RiPlatform => {
             let name = name_string(&op.b);
-            aux = name.len() as u64 | if name.as_bytes().contains(&0) { 1 << 32 } else { 0 };
+            // bit 32: embedded NUL; bit 33: non-ASCII — both outside "NUL-terminated ASCII string"
+            aux = name.len() as u64 | if name.as_bytes().contains(&0) { 1 << 32 } else { 0 } | if name.is_ascii() { 0 } else { 1 << 33 };
             let maps = rimt_maps(&op.s, h, 12 + name.len() as u32 + 1, &mut refs).unwrap();
             subn = maps.len() as u32;
             let maps = if op.arg(1) & 1 != 0 || !maps.is_empty() { Some(maps) } else { None };
